@@ -942,6 +942,75 @@ func c20T1Corr(c *hx.Ctx, w, h, orient, style int, x []int32, numPasses int, tag
 	}
 }
 
+// c20T1LayeredCorr ties Model/T1Layered.lean to the code for all 64 styles: EncodeLayered (normalised cumulative
+// rates, top bit-plane, bytes) and DecodeLayeredWithMode with the reported and with damaged pass lengths / data.
+func c20T1LayeredCorr(c *hx.Ctx, w, h, orient, style int, x []int32, numPasses int, tag string) {
+	var passes []t1.PassData
+	var data []byte
+	var err error
+	p, _ := hx.Guard(func() {
+		e := t1.NewT1Encoder(w, h, style)
+		e.SetOrientation(orient)
+		passes, data, err = e.EncodeLayered(x, numPasses, 0, nil, uint8(style))
+	})
+	op := fmt.Sprintf("t1-lenc %d %d %d %d %d %s", w, h, orient, style, numPasses, c20Ints(x))
+	switch {
+	case p:
+		c.Case(op, "panic")
+		return
+	case err != nil:
+		c.Case(op, "err")
+		return
+	}
+	pl := make([]int, len(passes))
+	for i, ps := range passes {
+		pl[i] = ps.Rate
+	}
+	mb := -1
+	if len(passes) > 0 {
+		mb = passes[0].Bitplane
+	}
+	c.Case(op, fmt.Sprintf("ok %s %d %s", c20IntsI(pl), mb, hx.Hex(data)))
+	c.Count("t1lcorr:" + tag)
+	c.Count(fmt.Sprintf("t1lcorr:style=%02x", style))
+	if len(passes) == 0 {
+		return
+	}
+	dec := func(data []byte, pl []int, mb int) {
+		var got []int32
+		var derr error
+		pd, _ := hx.Guard(func() {
+			d := t1.NewT1Decoder(w, h, style)
+			d.SetOrientation(orient)
+			derr = d.DecodeLayeredWithMode(data, pl, mb, 0, style&t1.CblkStyleTermAll != 0, style&t1.CblkStyleReset != 0)
+			got = d.GetData()
+		})
+		op := fmt.Sprintf("t1-ldec %d %d %d %d %d %s %s", w, h, orient, style, mb, c20IntsI(pl), hx.Hex(data))
+		switch {
+		case pd:
+			c.Case(op, "panic")
+		case derr != nil:
+			c.Case(op, "err")
+		default:
+			c.Case(op, "ok "+c20Ints(got))
+		}
+	}
+	dec(data, pl, mb)
+	if len(data) > 2 && c.R.Intn(3) == 0 { // damaged input: outcomes must still agree
+		m := append([]byte{}, data...)
+		m[c.R.Intn(len(m))] ^= byte(1 << uint(c.R.Intn(8)))
+		pl2 := append([]int{}, pl...)
+		switch c.R.Intn(3) {
+		case 0:
+			i := c.R.Intn(len(pl2))
+			pl2[i] = c.R.Range(0, len(m)+2)
+		case 1:
+			pl2 = pl2[:c.R.Range(1, len(pl2))]
+		}
+		dec(m, pl2, mb)
+	}
+}
+
 func c20T1(c *hx.Ctx) {
 	// code-shaped model (styles without LAZY): blocks up to 8x8 (and a few taller ones for the stripe/run-length logic)
 	nCorr := 320
@@ -977,6 +1046,39 @@ func c20T1(c *hx.Ctx) {
 		x := c20T1Block(c.R, 5, 6, 2)
 		c20T1Corr(c, 5, 6, style/2%4, style, x, 3*(c20MaxBitplane(x)+1)-2, "all-styles")
 	}
+	// layered API, all 64 styles
+	nL := 200
+	if c.Thorough() {
+		nL = 2000
+	}
+	for k := 0; k < nL; k++ {
+		w, h := c.R.Range(1, 8), c.R.Range(1, 8)
+		if k%11 == 0 {
+			h = c.R.Range(9, 13)
+		}
+		x := c20T1Block(c.R, w, h, c.R.Pick([]int{0, 1, 1, 2, 4, 4, 5}))
+		if k%5 != 0 {
+			for i := range x {
+				x[i] >>= uint(c.R.Range(8, 24)) // LAZY needs >= 5 planes to reach raw passes, but keep blocks cheap
+			}
+		}
+		mb := c20MaxBitplane(x)
+		np := 1
+		if mb >= 0 {
+			np = 3*(mb+1) - 2
+			if c.R.Intn(4) == 0 {
+				np = c.R.Range(1, np)
+			}
+		}
+		c20T1LayeredCorr(c, w, h, c.R.Intn(4), c.R.Intn(64), x, np, "random")
+	}
+	for style := 0; style < 64; style++ {
+		x := c20T1Block(c.R, 4, 5, 2)
+		x[c.R.Intn(len(x))] = int32(c.R.Range(64, 255)) // at least 7 planes: LAZY reaches its raw passes
+		c20T1LayeredCorr(c, 4, 5, style%4, style, x, 3*(c20MaxBitplane(x)+1)-2, "all-styles")
+	}
+	c20T1LayeredCorr(c, 2, 2, 0, 5, []int32{0, 0, 0, 0}, 1, "zero")
+	c20T1LayeredCorr(c, 2, 2, 0, 1, []int32{1, 2, 3}, 4, "bad-size")
 	c20T1Corr(c, 1, 1, 0, 0, []int32{0}, 1, "zero")
 	c20T1Corr(c, 3, 2, 1, 34, []int32{0, 0, 0, 0, 0, 0}, 1, "zero")
 	c20T1Corr(c, 2, 2, 0, 0, []int32{1, 2, 3}, 4, "bad-size")
